@@ -150,8 +150,10 @@ def judge(chk, cases):
             first[ci] = (off, detail)
     for ci, (off, detail) in first.items():
         if detail.startswith('<<"gen"'):
-            raise vlib.ToolError(f"schedule does not fit the specification (case {ci}, event {off}): {detail}")
+            raise vlib.ToolError(f"trace does not fit the specification (case {ci}, event {off}): {detail}")
     chk.process_validation(out, cases, events, "sst", describe)
+    chk.extra["schedule_steps_not_as_the_specification_predicts"] = chk.extra.get(
+        "schedule_steps_not_as_the_specification_predicts", 0) + out.get("notes", 0)
     return events
 
 
